@@ -350,52 +350,64 @@ def updateLineInfo (st : St) (offs : Nat) (text0 : List UInt8) : St :=
 
 def linePrefix : List UInt8 := [0x6C, 0x69, 0x6E, 0x65, 0x20]   -- "line "
 
+
 /-- result of `scanComment` -/
 structure CommentRes where
   st : St
   lit : List UInt8
   nlOffset : Nat
 
-/-- xgo / go `scanComment` (the first byte `/` or `#` is consumed; `s.ch` is the byte after it).
-xgo: `//…`, `/*…*/` and — for any other `s.ch` — the `#` style (so `#/…` is scanned by the `//`
-branch and `#*…` as a general comment, as the code does).  go: `//…` else `/*…*/`. -/
+/-- the three comment loops of xgo / go `scanComment` (`st.ch` is the byte after the first `/`
+or `#`): `//…`; `/*…*/` (go: for any other `s.ch`; xgo: for `*`); xgo: the `#` style for any
+other `s.ch` (so `#/…` is scanned by the `//` branch and `#*…` as a general comment, as the code
+does).  `terminated` is Go's `next >= 0`. -/
+def commentLoops (d : Dialect) (src : Array UInt8) (fuel : Nat) (st : St) : BlockRes :=
+  if st.ch = 0x2F then
+    let l := lineCommentLoop src fuel (next src st) 0
+    ⟨l.1, l.2, 0, true⟩
+  else if d = .go ∨ st.ch = 0x2A then
+    let b := blockCommentLoop src fuel (next src st) 0 0
+    if b.terminated then b else { b with st := b.st.error (st.off - 1) .commentNotTerminated }
+  else
+    let l := lineCommentLoop src fuel st 0
+    ⟨l.1, l.2, 0, true⟩
+
+/-- `if numCR > 0 && len(lit) >= 2 && lit[1] == '/' && lit[len(lit)-1] == '\r' { lit = lit[:len(lit)-1]; numCR-- }` -/
+def commentStrip1 (numCR : Nat) (lit0 : List UInt8) : List UInt8 × Nat :=
+  if 0 < numCR ∧ 2 ≤ lit0.length ∧ lit0[1]? = some (0x2F : UInt8) ∧ lit0.getLast? = some (0x0D : UInt8) then
+    (lit0.dropLast, numCR - 1)
+  else (lit0, numCR)
+
+/-- `if next >= 0 && [xgo: len(lit) >= 2 &&] (lit[1] == '*' || offs == s.lineOffset) && bytes.HasPrefix(lit[2:], prefix) { s.updateLineInfo(next, offs, lit) }`
+(the `len(lit) >= 2` guard is the fix of the `#`-at-EOF panic) -/
+def commentDirective (d : Dialect) (st : St) (offs : Nat) (lit1 : List UInt8) (terminated : Bool) : St :=
+  if terminated then
+    if d = .go ∨ 2 ≤ lit1.length then
+      match (lit1[1]? : Option UInt8) with
+      | none => st.setFail .panic
+      | some c1 =>
+        if (c1 = 0x2A ∨ offs = st.lineOff) ∧ linePrefix.isPrefixOf (lit1.drop 2) then
+          updateLineInfo st offs lit1
+        else st
+    else st
+  else st
+
+/-- `if numCR > 0 { lit = stripCR(lit, lit[1] == '*') }` -/
+def commentStripCR (st : St) (numCR : Nat) (lit1 : List UInt8) (nlOffset : Nat) : CommentRes :=
+  if 0 < numCR then
+    match (lit1[1]? : Option UInt8) with
+    | none => ⟨st.setFail .panic, lit1, nlOffset⟩
+    | some c1 => ⟨st, stripCR lit1 (c1 = 0x2A), nlOffset⟩
+  else ⟨st, lit1, nlOffset⟩
+
+/-- xgo / go `scanComment` (the first byte `/` or `#` is consumed; `s.ch` is the byte after it). -/
 def scanCommentXG (d : Dialect) (src : Array UInt8) (fuel : Nat) (st : St) : CommentRes :=
   if st.off = 0 then ⟨st.setFail .panic, [], 0⟩ else
   let offs := st.off - 1
-  -- (state, numCR, nlOffset, valid)
-  let r : BlockRes :=
-    if st.ch = 0x2F then
-      let l := lineCommentLoop src fuel (next src st) 0
-      ⟨l.1, l.2, 0, true⟩
-    else if d = .go ∨ st.ch = 0x2A then
-      let b := blockCommentLoop src fuel (next src st) 0 0
-      if b.terminated then b else { b with st := b.st.error offs .commentNotTerminated }
-    else
-      let l := lineCommentLoop src fuel st 0
-      ⟨l.1, l.2, 0, true⟩
+  let r := commentLoops d src fuel st
   let s := sliceP src r.st offs r.st.off
-  let lit0 := s.2
-  -- final '\r' of a //-comment
-  let strip1 := 0 < r.numCR ∧ 2 ≤ lit0.length ∧ lit0[1]? = some (0x2F : UInt8) ∧ lit0.getLast? = some (0x0D : UInt8)
-  let lit1 := if strip1 then lit0.dropLast else lit0
-  let numCR := if strip1 then r.numCR - 1 else r.numCR
-  -- line directive (xgo: `len(lit) >= 2 &&` guard added by the fix of the `#`-at-EOF panic)
-  let st1 :=
-    if r.terminated then
-      if d = .go ∨ 2 ≤ lit1.length then
-        match (lit1[1]? : Option UInt8) with
-        | none => s.1.setFail .panic
-        | some c1 =>
-          if (c1 = 0x2A ∨ offs = s.1.lineOff) ∧ linePrefix.isPrefixOf (lit1.drop 2) then
-            updateLineInfo s.1 offs lit1
-          else s.1
-      else s.1
-    else s.1
-  if 0 < numCR then
-    match (lit1[1]? : Option UInt8) with
-    | none => ⟨st1.setFail .panic, lit1, r.nlOffset⟩
-    | some c1 => ⟨st1, stripCR lit1 (c1 = 0x2A), r.nlOffset⟩
-  else ⟨st1, lit1, r.nlOffset⟩
+  let l := commentStrip1 r.numCR s.2
+  commentStripCR (commentDirective d s.1 offs l.1 r.terminated) l.2 l.1 r.nlOffset
 
 /-- tpl `scanComment` (`//…` else `/*…*/`; `interpretLineComment` reports no errors) -/
 def scanCommentTpl (src : Array UInt8) (fuel : Nat) (st : St) : CommentRes :=
